@@ -166,12 +166,20 @@ def job_lookup():
         ns['calc_inclin_l%d' % l] = mods['orderl%d' % l].calc_inclination
         ns['calc_inclin_l%d_off' % l] = mods['orderl%d' % l].calc_inclination_off
     g, _ = loader.load_py('TidalPy/tides/inclination_funcs/__init__.py', ['get_inclination_func'], ns)
+    def rp_get(l, on):
+        def rp(md):
+            r = replay.call1('TidalPy.tides.inclination_funcs', 'get_inclination_func', l, on)
+            want = 'orderl%d.calc_inclination%s' % (l, '' if on else '_off')
+            if not r['ok']:
+                return True, 'get_inclination_func(%d, %s) raised %s' % (l, on, r.get('error'))
+            return not str(r['value']).endswith(want), 'real get_inclination_func(%d, %s) = %s' % (l, on, r['value'])
+        return rp
     for l in range(2, 8):
         for on in (True, False):
             f = g['get_inclination_func'](l, on)
             want = mods['orderl%d' % l].calc_inclination if on else mods['orderl%d' % l].calc_inclination_off
             res.append(discharge(Obligation('get_inclination_func(%d,%s) is the degree-%d %s table' % (l, on, l, 'on' if on else 'off'), z3.BoolVal(f is want), [],
-                                            with_axioms=False, with_dens=False, replay=lambda md: (True, 'wrong function object returned'), key='lookup:get:%d:%s' % (l, on))))
+                                            with_axioms=False, with_dens=False, replay=rp_get(l, on), key='lookup:get:%d:%s' % (l, on))))
     for L in range(2, 8):
         names = ['inclination_off_maxl_%d' % L, 'inclination_on_maxl_%d' % L]
         h, _ = loader.load_py('TidalPy/tides/modes/mode_calc_helper/inclin_calc_orderl%d.py' % L, names, dict(mods, np=NP))
@@ -206,7 +214,7 @@ def job_lookup():
             on, Lz = z3.Bool('on'), z3.Int('L')
             good = z3.Or(*[z3.And(on == o, Lz == L) for o, row in d.items() for L, v in row.items() if v == ('inclin_calc_orderl%d' % L, 'inclination_%s_maxl_%d' % ('on' if o else 'off', L))])
             res.append(discharge(Obligation('inclination_functions_lookup[on][L] is inclin_calc_orderlL.inclination_{on,off}_maxl_L for all on, L in 2..7', good, [Lz >= 2, Lz <= 7],
-                                            with_axioms=False, with_dens=False, replay=lambda md: (True, 'wrong/missing helper at [%s][%s]' % (md.get('on'), md.get('L'))), key='helperdict')))
+                                            with_axioms=False, with_dens=False, replay=replay.lookup_replay('TidalPy.tides.modes.mode_calc_helper', 'inclination_functions_lookup', lambda md: [(bool(md.get('on', True)), int(md.get('L', 2)), 'inclin_calc_orderl%d.inclination_%s_maxl_%d' % (int(md.get('L', 2)), 'on' if md.get('on', True) else 'off', int(md.get('L', 2))))], 'wrong/missing helper'), key='helperdict')))
     return {'results': res, 'encoded': loader.ENCODED, 'axioms': CTX.axiom_notes, 'label': 'lookup'}
 
 
